@@ -13,6 +13,7 @@
 // for every other K on strings longer than 6; default counters, mode 0 and bytes<K> for every K, until<eof>
 // and the eol-aware grammar always run for every string.
 #include <tao/pegtl.hpp>
+#include <tao/pegtl/contrib/limit_bytes.hpp>
 
 #include <cstdint>
 #include <optional>
@@ -46,8 +47,8 @@ namespace
    };
    constexpr int NCTR = 6;
 
-   enum source_id { S_BYTES, S_REP_ANY, S_UNTIL_EOF, S_EOL_RULES, S_ACTION, S_ERR_BYTES, S_ERR_EOL, NSRC };
-   const char* const SRC[ NSRC ] = { "bytes", "rep_any", "until_eof", "eol_rules", "action", "parse_error_bytes", "parse_error_eol" };
+   enum source_id { S_BYTES, S_REP_ANY, S_UNTIL_EOF, S_EOL_RULES, S_ACTION, S_ERR_BYTES, S_ERR_EOL, S_ERR_NARROWED, NSRC };
+   const char* const SRC[ NSRC ] = { "bytes", "rep_any", "until_eof", "eol_rules", "action", "parse_error_bytes", "parse_error_eol", "parse_error_inside_narrowed_input" };
 
    enum helper_id { H_AT, H_BOL, H_EOL, H_LINE_AT, H_PARSE, NHELP };
    const char* const HELP[ NHELP ] = { "at", "begin_of_line", "end_of_line", "line_at", "parse" };
@@ -354,6 +355,14 @@ namespace
    struct err_bytes_grammar : pegtl::seq< pegtl::until< reached, pegtl::any >, pegtl::must< bang > > {};
    struct err_eol_grammar : pegtl::seq< pegtl::until< reached, pegtl::sor< pegtl::eol, pegtl::any > >, pegtl::must< bang > > {};
 
+   // a parse_error that leaves rules which narrow the input while they run (limit_bytes shortens the end, rematch works on a
+   // sub-input): the helpers are then asked about positions of the SAME input object after the exception was caught
+   struct narrowed_tail : pegtl::seq< pegtl::opt< pegtl::any >, pegtl::must< bang > > {};
+   struct narrowed_head : pegtl::rematch< pegtl::until< reached, pegtl::any >, pegtl::star< pegtl::any > > {};
+   struct err_narrowed_grammar : pegtl::seq< narrowed_head, narrowed_tail > {};
+   template< typename Rule > struct narrow_action : pegtl::nothing< Rule > {};
+   template<> struct narrow_action< narrowed_tail > : pegtl::limit_bytes< 2 > {};
+
    template< typename In, unsigned K > bool run_bytes( In& in ) { return pegtl::parse< pegtl::bytes< K > >( in ); }
    template< typename In, unsigned K > bool run_rep_any( In& in ) { return pegtl::parse< pegtl::rep< K, pegtl::any > >( in ); }
 
@@ -446,6 +455,21 @@ namespace
                catch( const pegtl::parse_error& e ) {
                   ++n_thrown[ int( c.e ) ];
                   check_position( in, e.position_object(), k, S_ERR_BYTES, c );
+               }
+            } );
+         }
+         for( std::size_t k = 0; k <= n; ++k ) {
+            with_input< In >( gb, q, [ & ]( In& in ) {
+               const target t{ c.data + k };
+               try {
+                  const bool r = pegtl::parse< err_narrowed_grammar, narrow_action >( in, t );
+                  source_failed( c, k, S_ERR_NARROWED, "no-parse_error", r ? "must<> did not throw (parse returned true)" : "must<> did not throw (parse returned false)" );
+               }
+               catch( const pegtl::parse_error& e ) {
+                  ++n_thrown[ int( c.e ) ];
+                  // the error sits behind the optional byte; every position of the input is then looked up on the same object
+                  check_position( in, e.position_object(), std::min( k + 1, n ), S_ERR_NARROWED, c );
+                  if( in.end() != c.data + n ) source_failed( c, k, S_ERR_NARROWED, "input-end-moved", "after the parse_error was caught the input's end is not where it was" );
                }
             } );
          }
